@@ -10,7 +10,8 @@ NOTE_BASE = ('Trusted: Coq 8.16.1 kernel + VM (vm_compute, no native_compute, no
              'sorted/itertools re-stated by hand and tied by correspondence only. Property theorems: Closed under the '
              'global context (checked on every run by Print Assumptions).')
 
-PARTIAL_NOTE = ' STATUS partial: see the header of coq/Properties/%s.v for exactly which part is a theorem and which part is decided by the correspondence alone.'
+E2E = ('All lattice-level theorems are end-to-end: from wf_ctx c and build_lattice fuel dfuel (relation_new c) = Ok L (the Gallina model of '
+       'lindig.lattice + Lattice.__init__/_init/_annotate; termination proved) to the clause, for all contexts of any size. ')
 
 CLAIMED = {
     'C01': ('Theorems (all contexts, all widths, all argument lists): the translated prime loop equals the comprehension-style '
@@ -18,40 +19,79 @@ CLAIMED = {
             'empty -> all; set-only dependence; raw = label form; unknown label -> KeyError. Tie: kernel regenerated from '
             'source + reflexivity, and vm_compute correspondence on EXH/FAM/WIDE/RND x all subsets.',
             'proof + regenerated kernel + differential correspondence', '7 C01'),
-    'C02': ('Theorems: Context.__getitem__ on objects returns (A\'\', A\'), on properties (B\', B\'\') via the proved double/doubleprime loops; '
-            'the result is a formal concept, contains the query, is the least such, closure extensive/monotone/idempotent; the mapping '
-            'lookup returns the member with exactly that extent. Lattice-level totality of the lookup rests on C03 (correspondence).' + PARTIAL_NOTE % 'C02',
-            'proof (context level) + differential correspondence (lattice level)', '7 C02'),
-    'C03': ('Executable Gallina model of lindig.lattice / neighbors (kernel regenerated from source) evaluated in Coq against the '
-            'implementation on every table with rows*cols<=9 (12 thorough), scales, wide and random tables; theorems so far: generated '
-            'candidates are formal concepts, bottom least, top greatest, all-crosses singleton.' + PARTIAL_NOTE % 'C03',
-            'differential correspondence against a Coq model; partial proof', '7 C03'),
-    'C05': ('Model of the neighbour search and of the converse links evaluated against the implementation (all concepts; '
-            'Context.neighbors on all object subsets); theorem so far: every candidate is a closed extent strictly above.' + PARTIAL_NOTE % 'C05',
-            'differential correspondence against a Coq model; partial proof', '7 C05'),
-    'C06': ('Model of the heap order, index/dindex ranks and neighbour sorting (also for lattices reloaded from permuted '
-            'serialisations) evaluated against the implementation; theorem so far: the sort key order is a strict total order.' + PARTIAL_NOTE % 'C06',
-            'differential correspondence against a Coq model; partial proof', '7 C06'),
-    'C07': ('Theorems: double() is the closure; closure of the union is the least closed extent above both (lub), the intersection is '
-            'closed, fixed by double() and the glb; n-ary forms; x<=y iff join is y iff meet is x. Ties: matrices.double and '
-            'lattice_members.join/meet regenerated from source. Final mapping lookup rests on C03.' + PARTIAL_NOTE % 'C07',
+    'C02': ('Theorems: context[items] = (A\'\', A\') resp. (B\', B\'\') via the proved double/doubleprime loops; it is a formal concept, contains the '
+            'query, is the least such; closure extensive/monotone/idempotent. ' + E2E + 'lattice[items], lattice(props) (any list incl. empty), '
+            'lattice[()] = last member = top, lattice[i], unknown labels -> KeyError; the mapping lookup cannot miss.',
+            'proof + regenerated kernels + differential correspondence', '7 C02'),
+    'C03': (E2E + 'The members are exactly the formal concepts (iff), no member repeated, len = their number, bottom first (closure of the empty set), '
+            'top last, all-crosses table -> one member, termination for every context. Lindig neighbour search and heap loop proved (Lindig\'s argument); '
+            'kernel lindig.neighbors regenerated from source.',
+            'proof + regenerated kernel + differential correspondence', '7 C03'),
+    'C05': (E2E + 'upper/lower neighbours are exactly the covers (no member strictly between), NoDup, converse; Context.neighbors(objs) = covers of the '
+            'generated concept for every object list; ctx_neighbors kernel theorem.',
+            'proof + regenerated kernel + differential correspondence', '7 C05'),
+    'C06': (E2E + 'iteration strictly sorted by the shortlex key and the key means "fewer members first, ties by first differing position"; index = position; '
+            'dindex order = longlex key order; infimum first and least, supremum last and greatest; atoms = covers of the infimum; neighbour tuples '
+            'sorted. Correspondence also covers lattices reloaded from permuted serialisations.',
+            'proof + differential correspondence', '7 C06'),
+    'C07': (E2E + 'n-ary join = member with extent closure(union), least upper bound; meet = member with extent intersection, greatest lower bound; '
+            'empty join = infimum, empty meet = supremum; binary methods = n-ary on two; commutative, associative, idempotent, absorption, '
+            'x<=y iff x|y is y iff x&y is x. Kernels matrices.double, lattice_members.join/meet regenerated from source.',
             'proof + regenerated kernels + differential correspondence', '7 C07'),
     'C08': ('Theorems for all in-range extents: each of the 8 predicates <-> its set-theoretic meaning; order by extents <-> '
             'reverse order of intents on concepts; reflexive, transitive, antisymmetric. Tie: the 8 one-liners are '
             'regenerated from source (reflexivity) + correspondence over all ordered concept pairs.',
             'proof + regenerated kernel + differential correspondence', '7 C08'),
-    'C09': ('Model of iterunion / tools.maximal / upset / downset / unions evaluated against the implementation (all concepts, '
-            'pairs, multisets, interleaved and abandoned traversals); theorem so far: empty collection yields nothing.' + PARTIAL_NOTE % 'C09',
-            'differential correspondence against a Coq model; partial proof', '7 C09'),
-    'C10': ('Model of _annotate and the atoms tuples evaluated against the implementation; theorems so far: an object is filed '
-            'under the extent {o}\'\' and a property under {p}\'.' + PARTIAL_NOTE % 'C10',
-            'differential correspondence against a Coq model; partial proof', '7 C10'),
-    'C18': ('Model of the shortlex powerset and the prime() filter evaluated against the implementation; theorem so far: empty '
-            'extent case.' + PARTIAL_NOTE % 'C18',
-            'differential correspondence against a Coq model; partial proof', '7 C18'),
-    'C20': ('Abstract DOT body model; theorems: exactly one node per concept named by its index, plain edges exactly concept -> each '
-            'lower neighbour; labels and covers rest on C10/C05. graphviz line syntax/quoting not modelled (body parsed).' + PARTIAL_NOTE % 'C20',
-            'proof on the abstract body + parsed correspondence', '7 C20'),
+    'C09': (E2E + 'generic heap-merge theorem (sorted, exactly the reachable set, termination bound); upset = exactly the members above in index order; '
+            'downset = exactly those below in dindex order; unions for any seed list (repeats, comparable members), each once; empty -> nothing; '
+            'tools.maximal keeps the extremal seeds and dropping the others changes nothing. Correspondence includes interleaved/abandoned traversals.',
+            'proof + differential correspondence', '7 C09'),
+    'C10': (E2E + 'every object labels exactly one member, its object concept; every property exactly its attribute concept; labels ascending; extent = '
+            'union of object labels below, intent = union of property labels above; atoms tuple = lattice atoms below.',
+            'proof + differential correspondence', '7 C10'),
+    'C11': ('Theorems: todict encoding (ascending index tuples, neighbours = covers, sorted); sum_bits decoding for any tuple order; ordered reload '
+            '_fromlist(tolist L) = L (record equality); raw reload of ANY permutation of entries and tuples = L. Partial: json, repr/literal_eval, pickle, '
+            'codecs, files and the second process are exercised by the harness (all channels x with/without/lazy lattice x raw permutations x fresh '
+            'interpreter with another hash seed), not modelled. Known finding F4 (pickle of large lattices).',
+            'proof of the codec + multi-channel differential correspondence (partial)', '7 C11'),
+    'C13': ('Theorems: the Definition machine (tools.Unique with _seen next to _items, _pairs set) refines the plain ordered-table model for all 26 '
+            'operations: same triple, same return value, same exception, rejected call leaves the store unchanged; invariant for every history from '
+            'the empty store; whole-history simulation; d == Definition(*d) after every step; bools shape. Correspondence: exhaustive single steps over '
+            'a bounded universe + random multi-handle histories, all handles observed after every step.',
+            'proof (refinement) + differential correspondence', '7 C13'),
+    'C14': ('Theorems: copy/union/intersection/take/transposed/inverted/rebuild refine the plain model (cell-wise or/and, conflicts exactly on a shared '
+            'differing cell, take selection/unknown names, involutions, rebuild round trip); frame theorems: a derive step and any later history change a '
+            'handle only through an in-place operation addressed to it. Aliasing in the code is exposed by observing every live handle after every step. '
+            'Context/Definition agreement of shape, fill_ratio, table string, crc32: harness glue (functions of the triple).',
+            'proof (refinement) + differential correspondence', '7 C14'),
+    'C15': ('Theorems on the specification (which C01-C07 tie to the code): row/column permutation maps concepts, covers, joins, meets and the column '
+            'combination patterns through the bijection; transposition swaps extent/intent, reverses covers, exchanges join and meet; duplicated row '
+            'keeps the intents, duplicated/full column keeps the extents; same number of concepts. Correspondence: variants built through the '
+            'Definition API (move_*, transposed, add_*) compared with the model of the harness-computed expected table.',
+            'proof on the specification + differential correspondence', '7 C15'),
+    'C04': ('Theorems: fast_generate_from and fcbo_dual (generic stack machine with the shared failed-closure list) each emit every formal concept exactly '
+            'once and nothing else; the only possible failure is OutOfFuel and fuel = number of concepts suffices; both agree. get_concepts/iterconcepts '
+            'wrap the first; agreement with the lattice via C03.',
+            'proof + differential correspondence', '7 C04'),
+    'C16': ('Theorems: the docstring tables (regenerated from source on every run) assign exactly one kind to every pair of contingent columns and to every '
+            'non-empty column; entries = unordered pairs in order; stable sort by rank is a sorted permutation; implication rows exclude (true,false). '
+            'Correspondence on every table with rows*cols<=12.',
+            'proof + regenerated tables + differential correspondence', '7 C16'),
+    'C17': ('Theorems: order-oracle independence of the Definition machine (sets stored in any Permutation give the same returns, exceptions and '
+            'observations, even when reshuffled before every call); upset_union/downset_union depend only on the SET of seeds. Partial: CPython hashing '
+            'not modelled; a fixed corpus is executed under several PYTHONHASHSEEDs in separate processes, sections must be identical and the '
+            'Definition histories must match the model. Known finding F5 (dependency bitsets).',
+            'proof of order independence + multi-process correspondence (partial)', '7 C17'),
+    'C18': (E2E + 'attributes() = the subsets of the intent deriving to the extent, in the shortlex powerset order (proved sorted, NoDup, complete), minimal() its '
+            'head, every listed set regenerates the concept through lattice(...); empty extent -> [intent]; infimum minimal = intent.',
+            'proof + differential correspondence', '7 C18'),
+    'C19': ('Theorems: Context(...) accepts iff names non-empty, duplicate-free, disjoint, one row per object, one cell per property, else ValueError and '
+            'never another exception; accepted = reproduced exactly (cells by truthiness); fromdict accepts iff the listed rules, else ValueError. '
+            'Correspondence on every triple/dict of EXH(6) with single and double corruptions.',
+            'proof + differential correspondence', '7 C19'),
+    'C20': (E2E + 'abstract DOT body: exactly one node per member named by its index, edges exactly member -> each lower cover (NoDup), label statements '
+            'iff the reduced label is non-empty with exactly those names. graphviz line syntax/quoting not modelled (Digraph.body parsed).',
+            'proof on the abstract body + parsed correspondence (partial)', '7 C20'),
 }
 
 ALL = [f'C{i:02d}' for i in range(1, 21)]
@@ -71,7 +111,7 @@ def main():
             'level_note': NOTE_BASE,
             'technique': technique,
         })
-    na = [{'property_id': p, 'reason': 'check not built yet in this revision (model and theorems under construction; see DESIGN.md section 11)'}
+    na = [{'property_id': p, 'reason': 'check not built yet in this revision (model and theorems under construction; see DESIGN.md)'}
           for p in ALL if p not in CLAIMED]
     m = {
         'version': 1,
